@@ -108,9 +108,10 @@ func (parseResult *ParseResult) TextForAttribute(attribute Attribute) string {
 	if attribute.Length == 0 {
 		return ""
 	}
-	if len(parseResult.Text) < attribute.Position+attribute.Length {
+	runes := []rune(parseResult.Text)
+	if attribute.Position < 0 || attribute.Length < 0 || len(runes) < attribute.Position+attribute.Length {
 		panic("attribute represents a range not representable by this text")
 	}
 
-	return string([]rune(parseResult.Text)[attribute.Position : attribute.Position+attribute.Length])
+	return string(runes[attribute.Position : attribute.Position+attribute.Length])
 }
